@@ -44,28 +44,41 @@ def _conj_val(es, heap):
     return ('val', acc)
 
 
-def equivalent(e_in, e_outs: Sequence[Any], *, K: int = 2, timeout_ms: int = 5000, aliases_in=None, aliases_out=None,
-               this_out=None, conj: bool = False, extra_assumptions=None, tr_hook=None) -> EqResult:
-    """Is val(e_in) == val(e_out) wherever e_in is defined?  With conj=True, e_outs is a list of boolean
-    expressions whose conjunction is compared with e_in.  aliases_*: name -> Val term overrides (for substitution
-    properties); both sides otherwise share every uninterpreted symbol (same valuation)."""
-    res = EqResult()
-    t0 = time.time()
-    tr_in = Z3Tr(K=K, aliases=aliases_in)
+def _encode(e_in, e_outs, K, aliases_in, aliases_out, this_out, conj, reading):
+    tr_in = Z3Tr(K=K, aliases=aliases_in, reading=reading)
     vi, di = tr_in.tr(e_in)
-    tr_out = Z3Tr(K=K, aliases=aliases_out if aliases_out is not None else aliases_in, this=this_out)
+    typing = tr_in.typing(e_in)
+    tr_out = Z3Tr(K=K, aliases=aliases_out if aliases_out is not None else aliases_in, this=this_out, reading=reading)
     outs = [tr_out.tr(e) for e in e_outs]
     if conj:
         dout = z3.And(*[z3.And(d, Val.is_B(v)) for v, d in outs]) if outs else z3.BoolVal(True)
         vout = Val.B(z3.And(*[Val.b(v) for v, _ in outs]) if outs else z3.BoolVal(True))
     else:
         vout, dout = outs[0]
-    res.uses_uf = tr_in.uses_uf or tr_out.uses_uf
+    return tr_in, tr_out, vi, di, vout, dout, typing
+
+
+def equivalent(e_in, e_outs: Sequence[Any], *, K: int = 2, timeout_ms: int = 5000, aliases_in=None, aliases_out=None,
+               this_out=None, conj: bool = False, extra_assumptions=None) -> EqResult:
+    """Is val(e_in) == val(e_out) wherever e_in is defined?  With conj=True, e_outs is a list of boolean
+    expressions whose conjunction is compared with e_in.  aliases_*: name -> Val term overrides (for substitution
+    properties); both sides otherwise share every uninterpreted symbol (same valuation).
+    Where enumerated sets with possibly coinciding elements feed len/sum/prod, a difference is only reported if it
+    exists under BOTH admissible readings (as listed / deduplicated) on the same valuation."""
+    res = EqResult()
+    t0 = time.time()
+    encs = [_encode(e_in, e_outs, K, aliases_in, aliases_out, this_out, conj, 'list')]
+    if encs[0][0].dual or encs[0][1].dual:
+        encs.append(_encode(e_in, e_outs, K, aliases_in, aliases_out, this_out, conj, 'set'))
+    res.uses_uf = any(e[0].uses_uf or e[1].uses_uf for e in encs)
     s = z3.Solver()
     s.set('timeout', timeout_ms)
-    for a in tr_in.assumptions + tr_out.assumptions + list(extra_assumptions or []):
+    for tr_in, tr_out, vi, di, vout, dout, typing in encs:
+        for a in tr_in.assumptions + tr_out.assumptions + typing:
+            s.add(a)
+        s.add(di)
+    for a in list(extra_assumptions or []):
         s.add(a)
-    s.add(di)
     r = s.check()
     if r == z3.unsat:
         res.reach = False
@@ -73,7 +86,8 @@ def equivalent(e_in, e_outs: Sequence[Any], *, K: int = 2, timeout_ms: int = 500
         res.secs = time.time() - t0
         return res
     res.reach = True if r == z3.sat else None
-    s.add(z3.Not(z3.And(dout, vi == vout)))
+    for tr_in, tr_out, vi, di, vout, dout, typing in encs:
+        s.add(z3.Not(z3.And(dout, vi == vout)))
     r = s.check()
     res.secs = time.time() - t0
     if r == z3.unsat:
@@ -83,16 +97,19 @@ def equivalent(e_in, e_outs: Sequence[Any], *, K: int = 2, timeout_ms: int = 500
         res.verdict = 'unknown'
         res.note = s.reason_unknown()
         return res
-    # replay the model through the independent evaluator
+    # replay the model through the independent evaluator (under every reading encoded)
     m = s.model()
     try:
-        heap_in = sem.ModelHeap(m, tr_in)
-        heap_out = sem.ModelHeap(m, tr_out)
-        a = _pyval(e_in, heap_in)
-        b = _conj_val(e_outs, heap_out) if conj else _pyval(e_outs[0], heap_out)
-        res.vin, res.vout = a, b
-        res.valuation = sem.describe_model(m, tr_in, [e_in] + list(e_outs))
-        differs = a[0] == 'val' and (b[0] == 'undef' or not sem.value_equal(a[1], b[1]))
+        differs = True
+        for tr_in, tr_out, vi, di, vout, dout, typing in encs:
+            heap_in = sem.ModelHeap(m, tr_in)
+            heap_out = sem.ModelHeap(m, tr_out)
+            a = _pyval(e_in, heap_in)
+            b = _conj_val(e_outs, heap_out) if conj else _pyval(e_outs[0], heap_out)
+            if res.vin is None:
+                res.vin, res.vout = a, b
+                res.valuation = sem.describe_model(m, tr_in, [e_in] + list(e_outs))
+            differs = differs and a[0] == 'val' and (b[0] == 'undef' or not sem.value_equal(a[1], b[1]))
     except Exception as ex:  # model could not be read back
         res.verdict = 'norepro'
         res.note = f'model read-back failed: {type(ex).__name__}: {ex}'
@@ -101,7 +118,7 @@ def equivalent(e_in, e_outs: Sequence[Any], *, K: int = 2, timeout_ms: int = 500
         res.verdict = 'sat'
     else:
         res.verdict = 'norepro'
-        res.note = f'z3 model does not replay in the Python evaluator: in={a} out={b}'
+        res.note = f'z3 model does not replay in the Python evaluator: in={res.vin} out={res.vout}'
     return res
 
 
